@@ -20,6 +20,8 @@ Definition cst_tokens (d : decl) : list N := const_tokens (d_op d) (const_val (d
 Definition targ_tokens (a : targ) : list N := match a with TInt d => cst_tokens d | TStr b => tok_bytes OP_STRING b end.
 Definition leaf_entry (p : path) (lk : lkind) (l : fxs) (ta : list targ) : list N :=
   [1] ++ tok_path p ++ [lk_op lk] ++ flat_map (fun '(w, v) => tok_const (fw_op w) v) l ++ flat_map targ_tokens ta.
+Definition pkg_entry (p : path) (n : N) (elems : list targ) : list N :=
+  [1] ++ tok_path p ++ [aml_pOpName] ++ [OP_PACKAGE; 0; 1 + lenN elems] ++ tok_const OP_BYTE n ++ flat_map targ_tokens elems.
 Definition dev_entry (p : path) : list N := blk_entry p BDev [].
 Definition meth_entry (p : path) (fl : N) : list N := blk_entry p BMeth [(W1, fl)].
 
@@ -29,6 +31,7 @@ Fixpoint ventry (p : path) (it : item) : list (list N) :=
   | IName d => [name_entry p d]
   | IBlk bk _ seg fa body => flat_map (ventry (p ++ [seg])) body ++ [blk_entry (p ++ [seg]) bk (bfx bk fa)]
   | ILeaf lk seg fa ta => [leaf_entry (p ++ [seg]) lk (lfx lk fa) ta]
+  | IPkg seg _ n elems => [pkg_entry (p ++ [seg]) n elems]
   end.
 Definition ventries (p : path) (l : list item) : list (list N) := flat_map (ventry p) l.
 
@@ -38,16 +41,18 @@ Fixpoint sentry (p : path) (it : item) : list (list N) :=
   | IName d => [name_entry p d]
   | IBlk bk _ seg fa body => blk_entry (p ++ [seg]) bk (bfx bk fa) :: flat_map (sentry (p ++ [seg])) body
   | ILeaf lk seg fa ta => [leaf_entry (p ++ [seg]) lk (lfx lk fa) ta]
+  | IPkg seg _ n elems => [pkg_entry (p ++ [seg]) n elems]
   end.
 Definition sentries (p : path) (l : list item) : list (list N) := flat_map (sentry p) l.
 
 Lemma ventries_perm : forall l p, Permutation (ventries p l) (sentries p l).
 Proof.
-  induction l as [|d rest IH|bk k seg fa body rest IHb IH|lk seg fa ta rest IH] using items_ind; intros p; [constructor| | |].
+  induction l as [|d rest IH|bk k seg fa body rest IHb IH|lk seg fa ta rest IH|seg k n elems rest IH] using items_ind; intros p; [constructor| | | |].
   - cbn [ventries sentries flat_map ventry sentry]. apply Permutation_app_head. apply IH.
   - cbn [ventries sentries flat_map ventry sentry]. apply Permutation_app; [|apply IH].
     fold (ventries (p ++ [seg]) body). fold (sentries (p ++ [seg]) body).
     eapply Permutation_trans; [apply Permutation_app_comm|]. cbn [app]. constructor. apply IHb.
+  - cbn [ventries sentries flat_map ventry sentry]. apply Permutation_app_head. apply IH.
   - cbn [ventries sentries flat_map ventry sentry]. apply Permutation_app_head. apply IH.
 Qed.
 
@@ -164,6 +169,87 @@ Proof.
   rewrite (argF_cst t tables f known _ p' _ csi ta [] _ HC Hok). unfold leaf_entry. cbn [app]. reflexivity.
 Qed.
 
+(** ---- a Name whose value is a Package of constants ---- *)
+Lemma renderExpr_S (t : T) tables f known scope idx : renderExpr t tables (S f) known scope idx =
+  match obj t idx with
+  | None => bad
+  | Some o =>
+      let op := o_opcode o in
+      if op =? aml_pOpIntResolvedNamePath then
+        match o_value o with Some (VIdx i) => [TOK_NAMEREF; 1] ++ tok_path (objPath t i) | _ => bad end
+      else if (op =? aml_pOpIntNamePath) || (op =? aml_pOpIntNamePathOrMethodCall) then
+        match value_bytes tables (o_value o) with
+        | None => bad
+        | Some raw =>
+            match resolveRaw known scope raw with
+            | Some p => if (lenN raw =? 0) then [TOK_NAMEREF; 0; 0] else [TOK_NAMEREF; 1] ++ tok_path p
+            | None => [TOK_NAMEREF; 0; lenN raw] ++ raw
+            end
+        end
+      else if op =? aml_pOpIntMethodCall then
+        match o_value o with
+        | Some (VIdx i) =>
+            let ks := exprKids t o in
+            [TOK_CALL] ++ tok_path (objPath t i) ++ [lenN ks] ++ flat_map (renderExpr t tables f known scope) ks
+        | _ => bad
+        end
+      else
+        let ks := exprKids t o in
+        [op] ++ (match o_value o with
+                 | None => [0]
+                 | Some (VNum v) => [1; v]
+                 | Some (VBytes _ _) => match value_bytes tables (o_value o) with Some b => [2; lenN b] ++ b | None => bad end
+                 | _ => [9]
+                 end) ++ [lenN ks] ++ flat_map (renderExpr t tables f known scope) ks
+  end.
+Proof. reflexivity. Qed.
+
+
+Lemma render_targs (t : T) tables f known sc : forall ks (ta : list targ), Forall2 (targ_obj t tables) ks ta -> forallb targ_okb ta = true ->
+  flat_map (renderExpr t tables (S f) known sc) ks = flat_map targ_tokens ta.
+Proof.
+  induction ks as [|k ks IH]; intros ta HF Hok; inversion HF as [|k0 d ks0 ta0 Hk Hr]; subst; cbn [flat_map]; [reflexivity|].
+  cbn [forallb] in Hok. apply andb_prop in Hok. destruct Hok as [Hd Hok]. rewrite (IH ta0 Hr Hok). f_equal.
+  destruct d as [d|b]; cbn [targ_obj targ_okb targ_tokens] in *.
+  - unfold cst_okb in Hd. apply andb_prop in Hd. destruct Hd as [Hc _].
+    destruct (const_ops' d Hc) as (E0 & E1 & E2 & E3 & E4). destruct Hk as (ko & Hko & Hop & Hkk & Hv).
+    rewrite (render_const t tables _ known sc k ko Hko Hkk); rewrite ?Hop; try assumption.
+    + rewrite Hv. reflexivity.
+    + rewrite Hv. unfold const_val. destruct (const_bytes (d_op d)); exact I.
+  - apply render_str. exact Hk.
+Qed.
+
+Lemma walkF_namepkg (t : T) tables f known p es stmts c co pth pk po kb ksb so eidx n elems :
+  obj t c = Some co -> o_opcode co = aml_pOpName -> View.kids t co = [pth; pk] ->
+  obj t pk = Some po -> o_opcode po = aml_pOpPackage -> o_infoIndex po = 11 -> o_value po = None -> View.kids t po = [kb; ksb] ->
+  fx_obj t kb (W1, n) -> obj t ksb = Some so -> o_opcode so = aml_pOpIntScopeBlock -> View.kids t so = eidx ->
+  Forall2 (targ_obj t tables) eidx elems -> forallb targ_okb elems = true ->
+  walkF t tables f known p (es, stmts) c = (es ++ [pkg_entry (p ++ [name_num (o_name co)]) n elems], stmts).
+Proof.
+  intros Ho Hop Hk Hpo Hopp Hinf Hvp Hkp Hkb Hso Hops Hks HF Hok. unfold walkF. rewrite Ho. cbv zeta. rewrite Hop.
+  change ((aml_pOpName =? aml_pOpIntScopeBlock) && negb (is_zero_scopeblock co)) with false. cbv iota.
+  change (aml_pOpName =? aml_pOpIntNamedField) with false. change (is_declop aml_pOpName) with true. cbv iota.
+  rewrite Hk. cbn [fold_left]. rewrite Hpo, Hopp. change (aml_pOpPackage =? aml_pOpIntScopeBlock) with false. cbv iota.
+  change (aml_pOpName =? aml_pOpMethod) with false. cbv iota.
+  assert (Hr : renderExpr t tables (pool_fuel t) known p pk =
+               [OP_PACKAGE; 0; 1 + lenN elems] ++ tok_const OP_BYTE n ++ flat_map targ_tokens elems).
+  { unfold pool_fuel. rewrite renderExpr_S. rewrite Hpo. cbv zeta. rewrite Hopp.
+    change (aml_pOpPackage =? aml_pOpIntResolvedNamePath) with false. change (aml_pOpPackage =? aml_pOpIntNamePath) with false.
+    change (aml_pOpPackage =? aml_pOpIntNamePathOrMethodCall) with false. change (aml_pOpPackage =? aml_pOpIntMethodCall) with false. cbn [orb].
+    assert (Ek : exprKids t po = kb :: eidx).
+    { unfold exprKids, argTypesOf. rewrite Hkp, Hinf. cbn [exprKids_go]. destruct Hkb as (ko & Hko & Hopk & _). cbn [fst] in Hopk.
+      rewrite Hko, Hopk. change (aml_pOpBytePrefix =? aml_pOpIntScopeBlock) with false. change (aml_pOpBytePrefix =? aml_pOpZero) with false. cbn [andb].
+      rewrite Hso, Hops. change (aml_pOpIntScopeBlock =? aml_pOpIntScopeBlock) with true. cbv iota. rewrite Hks, app_nil_r. reflexivity. }
+    rewrite Ek, Hvp. cbn [flat_map lenN length app].
+    assert (Elen : length eidx = length elems) by (clear -HF; induction HF; cbn [length]; [reflexivity|lia]).
+    rewrite (render_targs t tables _ known p eidx elems HF Hok).
+    destruct Hkb as (ko & Hko & Hopk & Hkk & Hvk). cbn [fst snd] in Hopk, Hvk.
+    rewrite (render_const t tables _ known p kb ko Hko Hkk); rewrite ?Hopk; try reflexivity; [|rewrite Hvk; exact I].
+    rewrite Hvk. unfold const_tokens, tok_const. cbn [app].
+    replace (lenN (kb :: eidx)) with (1 + lenN elems) by (unfold lenN; cbn [length]; rewrite Elen; lia). reflexivity. }
+  rewrite Hr. unfold pkg_entry. cbn [app]. reflexivity.
+Qed.
+
 Section ViewF1.
 Variable t : T.
 Variable g : ghost.
@@ -234,7 +320,7 @@ Qed.
 
 Lemma vspec_all : forall its, VSpec its.
 Proof.
-  induction its as [|d rest IH|bk k seg fa body rest IHb IH|lk seg fa ta rest IH] using items_ind; intros vh vtbl f known p es st b off data dpre dpost Hnth Hdata Hoff HD Hok Hf; subst off.
+  induction its as [|d rest IH|bk k seg fa body rest IHb IH|lk seg fa ta rest IH|seg k n elems rest IH] using items_ind; intros vh vtbl f known p es st b off data dpre dpost Hnth Hdata Hoff HD Hok Hf; subst off.
   - cbn [lay2 map fold_left ventries flat_map]. rewrite app_nil_r. reflexivity.
   - apply forallb_item_cons in Hok. destruct Hok as [Hd Hok]. cbn [item_okb] in Hd. apply andb_prop in Hd. destruct Hd as [Hd Hseg].
     apply N.ltb_lt in Hseg. unfold decl_okb in Hd. apply andb_prop in Hd. destruct Hd as [Hd _]. apply andb_prop in Hd. destruct Hd as [_ Hc].
@@ -311,6 +397,38 @@ Proof.
     rewrite (IH vh vtbl f known p _ st (b + N.of_nat (isz (ILeaf lk seg fa ta))) (lenN dpre + lenN (enc_item (ILeaf lk seg fa ta))) data (dpre ++ enc_item (ILeaf lk seg fa ta)) dpost Hnth
                ltac:(rewrite Hdata, enc_items_cons, <- !app_assoc; reflexivity) ltac:(rewrite lenN_app; reflexivity) HDrest Hok ltac:(lia)).
     cbn [ventries flat_map ventry]. fold l. rewrite Hnm, <- !app_assoc. reflexivity.
+  - apply forallb_item_cons in Hok. destruct Hok as [Hd Hok]. cbn [item_okb] in Hd. apply andb_prop in Hd. destruct Hd as [Hx Hel].
+    apply andb_prop in Hx. destruct Hx as [Hx Hpk]. apply pkglen_okb_adm in Hpk. apply andb_prop in Hx. destruct Hx as [Hx _].
+    apply andb_prop in Hx. destruct Hx as [_ Hseg]. apply N.ltb_lt in Hseg.
+    rewrite lay2_cons in HD |- *. rewrite map_app, fold_left_app. apply Forall_app in HD. destruct HD as [HDit HDrest].
+    cbn [lay2_item map ridx fold_left] in HDit |- *.
+    pose proof (Forall_inv HDit) as DN. destruct (Desc_inv _ _ _ _ _ DN) as (PN & KN & HDk). cbn [map ridx] in KN.
+    change (ridx (pkg_tree vh vtbl (b + 2) (lenN dpre + 5) k n elems)) with (b + 2) in KN.
+    pose proof (Forall_inv (Forall_inv_tail HDk)) as DP. unfold pkg_tree in DP.
+    destruct (Desc_inv _ _ _ _ _ DP) as (PP & KP & HDp). cbn [map ridx] in KP.
+    pose proof (Forall_inv HDp) as DB. pose proof (Forall_inv (Forall_inv_tail HDp)) as DS.
+    destruct (Desc_inv _ _ _ _ _ DB) as (PB & KB & _). cbn [map] in KB.
+    destruct (Desc_inv _ _ _ _ _ DS) as (PS & KS & HDe). rewrite leaf_row_idx, len_cst_pays in KS.
+    destruct (view_obj t g pl b _ H PN ltac:(discriminate)) as (co & Hco & Epco & Hkco).
+    destruct (view_obj t g pl (b + 2) _ H PP ltac:(discriminate)) as (po & Hpo & Eppo & Hkpo).
+    destruct (view_obj t g pl (b + 2 + 1) _ H PB ltac:(discriminate)) as (bo & Hbo & Epbo & Hkbo).
+    destruct (view_obj t g pl (b + 2 + 2) _ H PS ltac:(discriminate)) as (so & Hso & Epso & Hkso).
+    rewrite KN in Hkco. rewrite KP in Hkpo. rewrite KB in Hkbo. rewrite KS in Hkso.
+    assert (Hnm : name_num (o_name co) = seg) by (rewrite (pay_name _ _ Epco); cbn [nam_pay y_name]; apply name_num_seg; exact Hseg).
+    pose proof (cst_view vh vtbl data Hnth elems (b + 2 + 3) (lenN dpre + 5 + 1 + k + 1)
+                  (dpre ++ OP_NAME :: seg_bytes seg ++ [OP_PACKAGE] ++ enc_pkglen k (k + lenN ([n] ++ enc_ta elems)) ++ [n]) (enc_items rest ++ dpost)
+                  ltac:(rewrite Hdata, enc_items_cons, enc_pkg_item; repeat (first [rewrite <- app_assoc | progress cbn [app]]); reflexivity)
+                  ltac:(rewrite (lenN_app dpre), lenN_cons, (lenN_app (seg_bytes seg)), (lenN_app [OP_PACKAGE]), (lenN_app (enc_pkglen _ _)), (lenN_enc_pkglen _ _ Hpk);
+                        change (lenN (seg_bytes seg)) with 4; change (lenN [OP_PACKAGE]) with 1; change (lenN [n]) with 1; lia) Hel HDe) as HC.
+    rewrite (walkF_namepkg t tables f known p es st b co (b + 1) (b + 2) po (b + 2 + 1) (b + 2 + 2) so _ n elems Hco
+               ltac:(rewrite (pay_op _ _ Epco); reflexivity) Hkco Hpo ltac:(rewrite (pay_op _ _ Eppo); reflexivity)
+               ltac:(rewrite (pay_info _ _ Eppo); reflexivity) ltac:(rewrite (pay_val _ _ Eppo); reflexivity) Hkpo
+               ltac:(exists bo; split; [exact Hbo|split; [rewrite (pay_op _ _ Epbo); reflexivity|split; [exact Hkbo|rewrite (pay_val _ _ Epbo); reflexivity]]])
+               Hso ltac:(rewrite (pay_op _ _ Epso); reflexivity) Hkso HC Hel).
+    rewrite iszs_cons, isz_pkg in Hf.
+    rewrite (IH vh vtbl f known p _ st (b + N.of_nat (isz (IPkg seg k n elems))) (lenN dpre + lenN (enc_item (IPkg seg k n elems))) data (dpre ++ enc_item (IPkg seg k n elems)) dpost Hnth
+               ltac:(rewrite Hdata, enc_items_cons, <- !app_assoc; reflexivity) ltac:(rewrite lenN_app; reflexivity) HDrest Hok ltac:(lia)).
+    cbn [ventries flat_map ventry]. rewrite Hnm, <- !app_assoc. reflexivity.
 Qed.
 
 (** ---- the whole view ---- *)
